@@ -18,7 +18,7 @@ namespace Grenad.SrcTie
 open Grenad Grenad.R Grenad.Gen
 
 /-- one public call on the generated `ReaderCursor`, selected by the model's `Op` -/
-def genStep (cd : Codec) (s : Gen.ReaderCursor) : Op → M (Option (Bytes × Bytes) × Gen.ReaderCursor)
+def genRcStep (cd : Codec) (s : Gen.ReaderCursor) : Op → M (Option (Bytes × Bytes) × Gen.ReaderCursor)
   | .first => Gen.ReaderCursor.move_on_first (fun _ => cd.decompress) s
   | .last => Gen.ReaderCursor.move_on_last (fun _ => cd.decompress) s
   | .next => Gen.ReaderCursor.move_on_next (fun _ => cd.decompress) s
@@ -30,11 +30,11 @@ def genStep (cd : Codec) (s : Gen.ReaderCursor) : Op → M (Option (Bytes × Byt
   | .current => Except.bind (Gen.ReaderCursor.current s) fun r => Except.pure (r, s)
 
 /-- a history of public calls: the results, in order, and the final cursor -/
-def genRun (cd : Codec) : Gen.ReaderCursor → List Op → M (List (Option (Bytes × Bytes)) × Gen.ReaderCursor)
+def genRcRun (cd : Codec) : Gen.ReaderCursor → List Op → M (List (Option (Bytes × Bytes)) × Gen.ReaderCursor)
   | s, [] => Except.pure ([], s)
   | s, op :: rest =>
-    Except.bind (genStep cd s op) fun x =>
-      Except.bind (genRun cd x.snd rest) fun y => Except.pure (x.fst :: y.fst, y.snd)
+    Except.bind (genRcStep cd s op) fun x =>
+      Except.bind (genRcRun cd x.snd rest) fun y => Except.pure (x.fst :: y.fst, y.snd)
 
 section
 variable (cd : Codec) (file : Bytes) (Q : Grenad.Block → Prop) (ops : BlockOps Grenad.BlockCursor)
@@ -44,7 +44,7 @@ include hs hq hidx hops in
 /-- **One call.**  Whatever public operation is called on a good generated cursor: if it returns, the model's
     `RC.step` (with the repaired index cursor, `fixF1 := true`) returns the same entry and the same state. -/
 theorem src_rc_step (s s' : Gen.ReaderCursor) (op : Op) (log : List Nat) (r : Option (Bytes × Bytes))
-    (hg : GoodRC Q file s) (h : genStep cd s op = .ok (r, s')) :
+    (hg : GoodRC Q file s) (h : genRcStep cd s op = .ok (r, s')) :
     GoodRC Q file s' ∧ s'.reader.metadata = s.reader.metadata ∧
       ∃ log', RC.step ops (loadCursor cd file) true (toRCfull s log) op = (toRCfull s' log', .ok r) := by
   cases op with
@@ -56,7 +56,7 @@ theorem src_rc_step (s s' : Gen.ReaderCursor) (op : Op) (log : List Nat) (r : Op
   | le q => exact src_rc_le cd file Q ops hs hq hidx hops s s' q log r hg h
   | eq q => exact src_rc_eq cd file Q ops hs hq hidx hops s s' q log r hg h
   | reset =>
-    simp only [genStep] at h
+    simp only [genRcStep] at h
     obtain ⟨s1, hs1, h⟩ := bind_ok h
     simp only [Except.pure, Except.ok.injEq, Prod.mk.injEq] at h
     obtain ⟨h1, h2⟩ := h
@@ -65,7 +65,7 @@ theorem src_rc_step (s s' : Gen.ReaderCursor) (op : Op) (log : List Nat) (r : Op
     refine ⟨hg', by rw [hrd], log, ?_⟩
     simp only [RC.step, hmodel]
   | current =>
-    simp only [genStep] at h
+    simp only [genRcStep] at h
     obtain ⟨r1, hr1, h⟩ := bind_ok h
     simp only [Except.pure, Except.ok.injEq, Prod.mk.injEq] at h
     obtain ⟨h1, h2⟩ := h
@@ -78,16 +78,16 @@ include hs hq hidx hops in
 /-- **Histories.**  Any sequence of public calls on a good generated cursor: if every call returns, the results are
     those of the model run, and the final states correspond. -/
 theorem src_rc_history : ∀ (hist : List Op) (s s' : Gen.ReaderCursor) (log : List Nat)
-    (rs : List (Option (Bytes × Bytes))), GoodRC Q file s → genRun cd s hist = .ok (rs, s') →
+    (rs : List (Option (Bytes × Bytes))), GoodRC Q file s → genRcRun cd s hist = .ok (rs, s') →
     GoodRC Q file s' ∧ s'.reader.metadata = s.reader.metadata ∧
       ∃ log', RC.run ops (loadCursor cd file) true (toRCfull s log) hist = (toRCfull s' log', rs.map Res.ok)
   | [], s, s', log, rs, hg, h => by
-    simp only [genRun, Except.pure, Except.ok.injEq, Prod.mk.injEq] at h
+    simp only [genRcRun, Except.pure, Except.ok.injEq, Prod.mk.injEq] at h
     obtain ⟨h1, h2⟩ := h
     subst h1 h2
     exact ⟨hg, rfl, log, rfl⟩
   | op :: rest, s, s', log, rs, hg, h => by
-    simp only [genRun] at h
+    simp only [genRcRun] at h
     obtain ⟨x, hx, h⟩ := bind_ok h
     obtain ⟨r1, s1⟩ := x
     obtain ⟨y, hy, h⟩ := bind_ok h
@@ -104,7 +104,7 @@ include hs hq hidx hops in
 /-- **Error direction, one call.**  Where the model reports `Err(_)`, the generated call does not return. -/
 theorem src_rc_step_err (s : Gen.ReaderCursor) (op : Op) (log : List Nat) (hg : GoodRC Q file s)
     (herr : (RC.step ops (loadCursor cd file) true (toRCfull s log) op).2 = .err) :
-    ∀ x, genStep cd s op ≠ .ok x := by
+    ∀ x, genRcStep cd s op ≠ .ok x := by
   intro x hx
   obtain ⟨r, s'⟩ := x
   obtain ⟨_, _, log', hstep⟩ := src_rc_step cd file Q ops hs hq hidx hops s s' op log r hg hx
@@ -116,7 +116,7 @@ include hs hq hidx hops in
     run does not return. -/
 theorem src_rc_history_err (hist : List Op) (s : Gen.ReaderCursor) (log : List Nat) (hg : GoodRC Q file s)
     (herr : Res.err ∈ (RC.run ops (loadCursor cd file) true (toRCfull s log) hist).2) :
-    ∀ x, genRun cd s hist ≠ .ok x := by
+    ∀ x, genRcRun cd s hist ≠ .ok x := by
   intro x hx
   obtain ⟨rs, s'⟩ := x
   obtain ⟨_, _, log', hrun⟩ := src_rc_history cd file Q ops hs hq hidx hops hist s s' log rs hg hx
@@ -130,7 +130,7 @@ include hs hq hidx hops in
     `RC.new` of the metadata. -/
 theorem src_rc_history_new (rdr : Gen.Reader) (hrd : rdr.reader.bytes = file) (hlv : rdr.metadata.index_levels ≤ 255)
     (s0 s' : Gen.ReaderCursor) (hnew : Gen.ReaderCursor.new rdr = .ok s0) (hist : List Op)
-    (rs : List (Option (Bytes × Bytes))) (h : genRun cd s0 hist = .ok (rs, s')) :
+    (rs : List (Option (Bytes × Bytes))) (h : genRcRun cd s0 hist = .ok (rs, s')) :
     GoodRC Q file s' ∧ s'.reader.metadata = rdr.metadata ∧
       ∃ log', RC.run ops (loadCursor cd file) true (RC.new (toModelMeta rdr.metadata)) hist =
         (toRCfull s' log', rs.map Res.ok) := by
